@@ -158,6 +158,21 @@ func (h *Host) Disconnect(p peer.ID) {
 	}
 }
 
+// ResetAllStreams resets every stream of every connection (harness tear-down).
+func (h *Host) ResetAllStreams() {
+	h.mu.Lock()
+	var cs []*Conn
+	for _, l := range h.conns {
+		cs = append(cs, l...)
+	}
+	h.mu.Unlock()
+	for _, c := range cs {
+		for _, s := range c.Streams() {
+			s.resetNoPoint()
+		}
+	}
+}
+
 // Emit publishes an event on the host's bus.
 func (h *Host) Emit(evt any) {
 	var em event.Emitter
